@@ -305,7 +305,7 @@ Theorem C11_bitmask_bfs_counts_distance_classes :
 Proof. exact @bitmask_bfs_counts_distance_classes. Qed.
 Print Assumptions C11_bitmask_bfs_counts_distance_classes.
 
-(* every outcome: sizes (then they are right), AssertionError exactly on invalid input, IndexError only on valid input - never a KeyError *)
+(* every outcome: sizes (then they are right) or AssertionError exactly on invalid input - never an IndexError or a KeyError *)
 Theorem C11_bitmask_bfs_from_outcomes :
   forall (n : nat) (gens : list (list nat)) (start : list nat) (max_diameter : BinNums.N)
            (k : nat),
@@ -316,35 +316,30 @@ Theorem C11_bitmask_bfs_from_outcomes :
              sizes =
              List.map (fun i : nat => length (layer (list nat) st_eq_dec (fs gens) (start :: nil) i))
                (List.seq 0 (S k))
-         | Err e =>
-             e = AssertionErr /\ ~ valid_input n gens start \/
-             e = IndexErr /\ valid_input n gens start
+         | Err e => e = AssertionErr /\ ~ valid_input n gens start
          end.
-Proof. exact @bitmask_bfs_from_outcomes. Qed.
+Proof. exact @bitmask_bfs_from_outcomes_total. Qed.
 Print Assumptions C11_bitmask_bfs_from_outcomes.
 
-(* the engine succeeds on every valid input in which two generators differ beyond position 8 (the documented domain: generators that move the trailing positions) *)
+(* the engine succeeds on EVERY valid input (since fix 40d8e7d also when all generators treat the trailing positions alike) *)
 Theorem C11_bitmask_bfs_from_total :
   forall (n : nat) (gens : list (list nat)) (start : list nat),
          valid_input n gens start ->
          forall max_diameter : BinNums.N,
-         spread gens ->
          exists sizes : list nat, bitmask_bfs_from n gens start max_diameter = Ok sizes.
 Proof. exact @bitmask_bfs_from_total. Qed.
 Print Assumptions C11_bitmask_bfs_from_total.
 
-(* and raises IndexError when all generators agree there (the np.roll grouping finds no group start) *)
-Theorem C11_bitmask_bfs_from_index_error :
-  forall (n : nat) (gens : list (list nat)) (start : list nat),
+(* on valid input the result IS the growth function, cut at the depth limit *)
+Theorem C11_bitmask_bfs_from_valid :
+  forall (n : nat) (gens : list (list nat)) (start : list nat) (max_diameter : BinNums.N),
          valid_input n gens start ->
-         forall max_diameter : BinNums.N,
-         length gens <> 1 ->
-         (forall g g' : list nat,
-          List.In g gens -> List.In g' gens -> List.skipn RR g = List.skipn RR g') ->
-         BinNat.N.le (BinNums.Npos BinNums.xH) max_diameter ->
-         bitmask_bfs_from n gens start max_diameter = Err IndexErr.
-Proof. exact @bitmask_bfs_from_index_error. Qed.
-Print Assumptions C11_bitmask_bfs_from_index_error.
+         bitmask_bfs_from n gens start max_diameter =
+         Ok (NumpyBfsProofs.take_nonzero
+               (List.map (fun i : nat => length (layer (list nat) st_eq_dec (fs gens) (start :: nil) i))
+                  (List.seq 0 (S (BinNat.N.to_nat max_diameter))))).
+Proof. exact @bitmask_bfs_from_valid. Qed.
+Print Assumptions C11_bitmask_bfs_from_valid.
 
 (* the loop invariant: after t steps, chunk by chunk, last = layer t, black = layers 0..t, gray empty *)
 Theorem C11_step_inv :
